@@ -7,14 +7,16 @@ GEN = ['DtxConsts', 'VadConsts']
 SOURCES = ['src/opus_encoder.c', 'src/opus_private.h', 'src/analysis.c', 'src/analysis.h', 'silk/enc_API.c',
            'silk/float/encode_frame_FLP.c', 'silk/fixed/encode_frame_FIX.c', 'silk/define.h', 'silk/tuning_parameters.h',
            'silk/structs.h', 'silk/control.h', 'silk/control_codec.c', 'silk/init_encoder.c', 'silk/VAD.c', 'silk/ana_filt_bank_1.c',
-           'silk/sigm_Q15.c', 'silk/lin2log.c', 'silk/Inlines.h', 'silk/SigProc_FIX.h', 'silk/macros.h',
+           'silk/sigm_Q15.c', 'silk/lin2log.c', 'silk/Inlines.h', 'silk/SigProc_FIX.h', 'silk/macros.h', 'silk/x86/VAD_sse4_1.c',
+           'silk/x86/x86_silk_map.c', 'silk/x86/main_sse.h', 'celt/x86/x86cpu.c',
            'src/repacketizer.c', 'src/opus_decoder.c', 'celt/celt_decoder.c', 'include/opus_defines.h']
 REQUIRED_THEOREMS = ['OpusProps.C20.' + t for t in (
     'dtx_first_decision', 'dtx_machine_run_bound', 'dtx_machine_refresh', 'dtx_machine_resume',
     'silk_onset', 'silk_run_bound', 'silk_refresh_resume',
     'dtx_onset', 'dtx_run_bound', 'dtx_detector_switch_no_dtx', 'dtx_resume', 'dtx_resume_counter', 'dtx_resume_silk',
     'in_dtx_on_dtx_packets', 'counters_in_range', 'regular_iff_budget', 'regular_iff_three_bytes',
-    'dtx_off_no_tiny', 'dtx_stream_decodes', 'vad_init_invariant', 'vad_total_in_range', 'vad_energy_fits_32bit')]
+    'dtx_off_no_tiny', 'dtx_stream_decodes', 'vad_init_invariant', 'vad_total_in_range', 'vad_energy_fits_32bit',
+    'vad_filter_state_32bit', 'vad_silence_inactive', 'silk_dtx_onset_on_silence')]
 UNPROVED = []
 RULE = ('seeded generation of whole encoder runs (Fs x channels x application x complexity 0..10 x VBR/CVBR/CBR x bitrate '
         'classes incl. auto/max/near the low-budget boundary x output buffer x all nine frame durations x DTX on/off x FEC x '
@@ -27,8 +29,13 @@ RULE = ('seeded generation of whole encoder runs (Fs x channels x application x 
         'durations x complexity {7,10} x VBR/CBR) and regime-switch (detector in charge changes inside a gap). A case is '
         'distinct by (detector in charge, packet class, mode, single/multi-frame).')
 NOT_COVERED = [
-    'that the tonality analyser / SILK VAD classify non-silent inactivity correctly (their decisions are oracles; the '
-    'witness search takes the detector\'s own decision as premise)',
+    'that the tonality analyser classifies non-silent inactivity correctly (its decision is an oracle; the witness search takes '
+    'the detector\'s own decision as premise). The SILK VAD is now inside the model (OpusModel.SilkVad, tied exactly to '
+    'silk_VAD_GetSA_Q8_c and to the kernel the library dispatches to), with totality/ranges and "digital silence is inactive '
+    'from the 8th zero frame on" proved; what it says about non-silent input is still not a theorem',
+    'between the API and the VAD input: resampler, high-pass and stereo mid/side conversion of SILK turn digital silence at the '
+    'API into exact zeros at the VAD input only after their memories have run out (not modelled); the end-to-end onset of '
+    'SILK\'s DTX on digital silence is a calibrated search oracle (silk_dtx_onset, tools/c20_calibration.json)',
     'the "gray zone" of dtx_off_no_tiny: for packets longer than 20 ms the code emits 1-2 byte PLC packets below 300 bytes/s '
     'or 2400 bit/s (src/opus_encoder.c:1267) although buffer and bitrate would allow three bytes per frame: decided to be a '
     'violation of the property text, recorded as known finding C20-low-budget-long-frames (deterministic scenario low-budget-gray)',
@@ -63,13 +70,18 @@ TRUSTED = ['harness/c20_dtx.c records the locals activity / is_silence / analysi
            'run_analysis by #define before #including src/opus_encoder.c; nothing in /repo is edited']
 
 
+WRAP = ['-Wl,--wrap=silk_VAD_GetSA_Q8_c', '-Wl,--wrap=silk_VAD_GetSA_Q8_sse4_1']
+
+
 def _harness(ctx, variant, name='c20_dtx'):
     """Compile a harness; the shared library cache may be pruned by concurrent runs, so retry once with a fresh build."""
     cal = json.load(open(os.path.join(common.VERIF, 'tools', 'c20_calibration.json')))
     extra = ['-DC20_ACT_MIN_DB=(%r)' % cal['act_db_min'], '-DC20_ACT_MAX_DB=(%r)' % cal['act_db_max'],
-             '-DC20_GAP_MAX_DB=(%r)' % cal['gap_db_max']]
+             '-DC20_GAP_MAX_DB=(%r)' % cal['gap_db_max'], '-DC20_SILK_ONSET_MAX_MS=%d' % cal['silk_onset_max_ms']]
     if variant == 'san':
         extra.append('-fno-sanitize=float-cast-overflow')
+    if name == 'c20_vadenc':
+        extra = extra + WRAP
     for attempt in (0, 1):
         try:
             if not os.path.exists(ctx.lib(variant).a):
@@ -81,11 +93,11 @@ def _harness(ctx, variant, name='c20_dtx'):
             ctx._libs.pop(variant, None)
 
 
-def _tie(ctx, name, args, harness='c20_dtx'):
+def _tie(ctx, name, args, harness='c20_dtx', env=None):
     h = _harness(ctx, 'san', harness)
     if not os.path.exists(common.driver_path()):     # another owner is relinking the shared driver: rebuild and go on
         common.lake_build(['opusmodel'])
-    tr = common.run_tie(name, [h] + args, timeout=3000)
+    tr = common.run_tie(name, [h] + args, timeout=3000, env=env)
     # harness statistics -> distribution
     for n in list(tr.notes):
         if n.startswith('tie-dist ') or n.startswith('vad-dist calls'):
@@ -108,6 +120,10 @@ def ties(ctx):
     out.append(_tie(ctx, 'dtx-silk-bust', ['scen', 'silk-bust', '0', '1', '1', '0', 'tie']))
     # the SILK VAD: real silk_VAD_GetSA_Q8_c (silk/VAD.c #included) vs OpusModel.SilkVad, every state field and output
     out.append(_tie(ctx, 'silk-vad', ['tie', s, '250' if ctx.quick else '6000'], harness='c20_vad'))
+    # the same inside the real encoder (--wrap on both kernels of the run-time dispatch table), portable C and SSE4.1
+    for cap in ('0', '4'):
+        out.append(_tie(ctx, 'silk-vad-enc-arch%s' % cap, ['enc', s, '40' if ctx.quick else '800'], harness='c20_vadenc',
+                        env={'OPUS_VERIF_ARCH_CAP': cap}))
     out.append(_tie(ctx, 'dtx-nan-pattern', ['scen', 'nan-pattern', '0', '11', '2', '0', 'tie']))
     return out
 
@@ -198,7 +214,7 @@ def _run_search(h, args, env, wit, stats):
             for kv in m.group(1).split(' '):
                 k, _, v = kv.partition('=')
                 if v.lstrip('-').isdigit():
-                    stats[k] = stats.get(k, 0) + int(v)
+                    stats[k] = max(stats.get(k, 0), int(v)) if '_max' in k else stats.get(k, 0) + int(v)
     if rc != 0:
         tail = [l for l in out.split('\n') if 'runtime error' in l or 'ERROR: AddressSanitizer' in l or l.startswith('SUMMARY')]
         wit.append({'suite': 'dtx-search', 'input': ' '.join(args), 'expected': 'encoder/decoder run without trap',
@@ -295,7 +311,9 @@ LEVEL_TEXT = ('proof: Lean model of decide_dtx_mode, the SILK noSpeechCounter/in
               'which the detector changes never returns a DTX packet), resume under both detectors, in-DTX '
               'query true after every DTX packet of any run, no DTX/low-budget return with DTX off and a regular budget (the budget rule '
               'in bitrate/buffer terms), the decoder skeleton returns the exact duration for every DTX packet shape and the requested '
-              'frame_size for losses; '
+              'frame_size for losses; the SILK VAD (silk/VAD.c, fixed-point) as an exact model with totality, output ranges, 32-bit '
+              'range lemmas, digital silence inactive after at most 7 frames from every reachable state and SILK DTX onset within '
+              '10+7 frames; '
               'constants regenerated from silk/define.h; model tied to the real encoder per call and per run (oracles recorded '
               'from the running encoder).')
 LEVEL_NOTE = ('trusted: Lean kernel; extractor + regen; the recording harness (macro/#define wrapping of the included '
